@@ -623,6 +623,34 @@ for _pid in ("C08", "C01"):
     PROPERTIES[_pid]["rules"] += [("CONVD", convd)]
     PROPERTIES[_pid]["explanation"] += " (CONVD) No Result of Quantity::convert_to is unwrapped anywhere in the library (one exempt row with its argument): with a polymorphic zero operand a conversion between type-correct operands can fail at run time."
 
+QERR_EXEMPT = {
+    ("is_dimensionless", "fallible:as_scalar"): {"reason": "`is_dimensionless(x)` IS the question whether the conversion to a scalar succeeds; `.is_ok()` is its answer, which is returned"},
+}
+
+
+def qerr(ctx):
+    """sibling of CONVD for the wrappers around the conversion: every Result<_, QuantityError> returned by a Quantity
+    method (as_scalar, power, …) is propagated or branched on, never unwrapped.  A value of type Scalar can carry a
+    non-scalar unit at run time (quantity_cast by design; the unit-less polymorphic zero times infinity = a unit-less
+    NaN of any dimension), so `as_scalar()` on a type-correct argument can fail."""
+    o = rule_errd(ctx.lib, [], ["*"], QERR_EXEMPT, min_fallible=20, lib_prefix="quantity::Quantity::", err_type="QuantityError", min_bodies=20)
+    o.rule = "QERR"
+    o.clause = "no Result of a Quantity method is unwrapped (a Scalar-typed value can carry a non-scalar unit at run time)"
+    keep = []
+    for f in o.findings:
+        if ":crate::convert_to#" in f.key:  # CONVD's sites
+            continue
+        f.rule = "QERR"
+        f.key = f.key.replace("ERRD:", "QERR:", 1).replace(":crate::", ":", 1)
+        keep.append(f)
+    o.findings = keep
+    return o
+
+
+for _pid in ("C08", "C01"):
+    PROPERTIES[_pid]["rules"] += [("QERR", qerr)]
+    PROPERTIES[_pid]["explanation"] += " (QERR) No Result of any other Quantity method (as_scalar, power, …) is unwrapped either: FFI functions taking a Scalar and the factorial operator report a QuantityError for a Scalar-typed value whose run-time unit is not scalar."
+
 from listview import rule_listeq  # noqa: E402
 
 PROPERTIES["C18"]["rules"] += [("LISTEQ", lambda ctx: rule_listeq(ctx.lib))]
@@ -688,6 +716,38 @@ _SEM_MAP = {
 for _pid, _pref in _SEM_MAP.items():
     PROPERTIES[_pid]["rules"] += [("SEM", sem(*_pref))]
     PROPERTIES[_pid]["explanation"] += " (SEM: %s) Design-level sibling rules whose violations on this tree are known findings with witnesses (see DESIGN 5′)." % ", ".join(_pref)
+
+# ---------------------------------------------------------------- second hunt round (H7 stdlib/FFI, H8 CLI, H9 front end)
+from idchars import rule_idchars  # noqa: E402
+from idleerr import rule_idleerr  # noqa: E402
+from inspectcmd import rule_inspect  # noqa: E402
+from rawval import rule_rawval  # noqa: E402
+from strbyte import rule_strbyte  # noqa: E402
+
+PROPERTIES["C10"]["rules"] += [("IDCHARS", lambda ctx: rule_idchars(ctx.lib))]
+PROPERTIES["C10"]["explanation"] += " (IDCHARS) The tokenizer's identifier predicates are evaluated (from their HIR: literals, code-point ranges, XID properties) for every character of every symbolic token spelling: none may be an identifier character, or the operator is swallowed into the identifier before it."
+
+PROPERTIES["C08"]["rules"] += [("IDLEERR", lambda ctx: rule_idleerr(ctx.lib))]
+PROPERTIES["C08"]["explanation"] += " (IDLEERR) Vm::runtime_error / Vm::backtrace, which index the span tables with the frames' instruction pointers, are called only from code that runs inside Vm::run_without_cleanup (call graph): an error raised between inputs would index an empty chunk (panic) or blame the previous input."
+
+PROPERTIES["C07"]["rules"] += [("INSPECT", lambda ctx: rule_inspect(ctx.lib))]
+PROPERTIES["C07"]["explanation"] += " (INSPECT) The Context methods behind `help`, `info` and `list` take &self (Context is Freeze) or never call Context::interpret on the live session: commands are not in the saved history, so they must not change `ans` or anything else a replay depends on."
+
+RAWVAL_EXEMPT = {
+    "ffi::functions::value_of": "value_of IS the documented raw accessor (`value_of(x)`: the number in front of whatever unit x has)",
+    "interpreter::assert_eq::AssertEq2Error::is_floating_point_inaccuracy": "only decides whether the hint 'likely due to floating point inaccuracy' is appended to a failed assertion's message; the operands are fields the constructor already converted to the unit of the right-hand side",
+    "ffi::plot::line_plot": "plot output is covered by no listed property; the axis is labelled with the unit of the first element (a mixed-unit list is plotted at face value — noted in DESIGN §14)",
+    "ffi::plot::bar_chart": "plot output is covered by no listed property; see line_plot",
+}
+for _pid in ("C09", "C19"):
+    PROPERTIES[_pid]["rules"] += [("RAWVAL", lambda ctx: rule_rawval(ctx.lib, RAWVAL_EXEMPT))]
+    PROPERTIES[_pid]["explanation"] += " (RAWVAL) Every Quantity::unsafe_value() outside quantity.rs follows a conversion to a known unit, is paired with a read of the same quantity's unit, or feeds a unit-insensitive test (4 exempt rows with reasons): FFI functions read Scalar arguments unit-aware."
+
+STRBYTE_EXEMPT = {
+    ("ffi::datetime::format_datetime", "len"): "the byte length is only the initial capacity of the output buffer; it never reaches the program",
+}
+PROPERTIES["C09"]["rules"] += [("STRBYTE", lambda ctx: rule_strbyte(ctx.lib, STRBYTE_EXEMPT))]
+PROPERTIES["C09"]["explanation"] += " (STRBYTE) No FFI function applies a byte-offset string API (len, get, range indexing, find, split_at, …) to a program string: lengths and positions exchanged with Numbat code are characters, which the library's position-stepping search functions rely on."
 
 NOT_APPLICABLE = {
     "C03": "numerical agreement of conversion factors over 500 units is a statement about run-time values; no structural clause is a necessary condition that is not already covered under C04/C11/C12 (static analysis cannot bound the arithmetic)",
